@@ -29,17 +29,28 @@ def find(rx, text, what, flags=0):
     return m
 
 
+import os
+sys.path.insert(0, os.path.dirname(os.path.abspath(__file__)))
+from rustconst import const_in, const_of_impl
+
+SOURCES = []
+
+
 def ev(expr):
-    expr = expr.strip().rstrip(";")
-    if not re.fullmatch(r"[0-9xa-fA-F_ ()<>*/+\-]+", expr):
+    """a Rust integer constant expression (tools/rustconst.py): a respelled constant reads as the same value"""
+    if expr is None:
+        fail("constant not found")
+    v = const_in(expr.strip().rstrip(";"), *SOURCES)
+    if v is None:
         fail("unexpected constant expression %r" % expr)
-    return int(eval(expr.replace("_", ""), {"__builtins__": {}}))
+    return v
 
 
 def main():
     repo, out = sys.argv[1], sys.argv[2]
     mod = open(repo + "/src/metadata/mod.rs").read()
     cue = open(repo + "/src/metadata/cuesheet.rs").read()
+    SOURCES[:] = [mod, cue]
     defs = []       # (name, value, type)
     checks = []     # (lemma name, statement, needed gen_ names)
 
@@ -60,7 +71,7 @@ def main():
 
     def bt(name):
         enum = find(r"pub enum BlockType \{(.*?)\n\}", mod, "enum BlockType", re.S).group(1)
-        codes = dict(re.findall(r"(\w+) = (\d+),", enum))
+        codes = dict((k, str(ev(v))) for k, v in re.findall(r"(\w+) = ([^,\n]+),", enum))
         if name == "#":
             return str(len(codes))
         if name not in codes:
@@ -75,7 +86,7 @@ def main():
 
     const("gen_blocksize_max", "N", lambda: str(ev(find(r"impl BlockSize \{.*?const MAX: u32 = ([^;]+);", mod, "BlockSize::MAX", re.S).group(1))),
           "blocksize_max_matches_source", "BLOCKSIZE_MAX = gen_blocksize_max")
-    const("gen_streaminfo_size", "N", lambda: str(ev(find(r"const SIZE: BlockSize = BlockSize\(([^)]+)\);", mod, "Streaminfo::SIZE").group(1))),
+    const("gen_streaminfo_size", "N", lambda: str(ev(const_of_impl(mod, "Streaminfo", "SIZE"))),
           "streaminfo_size_matches_source", "body_size (BStreaminfo (mkSI 0 0 0 0 0 1 1 0 None)) = Ok gen_streaminfo_size")
     const("gen_seek_max_points", "N", lambda: str(ev(find(r"pub const MAX_POINTS: usize = ([^;]+);", mod, "SeekTable::MAX_POINTS").group(1))),
           "seek_max_points_matches_source", "SEEK_MAX_POINTS = gen_seek_max_points")
@@ -85,19 +96,19 @@ def main():
           "lead_in_matches_source", "LEAD_IN = gen_lead_in")
     const("gen_catalog_len", "N", lambda: str(ev(find(r"const CATALOG_LEN: usize = ([^;]+);", mod, "Cuesheet::CATALOG_LEN").group(1))),
           "catalog_len_matches_source", "CATALOG_LEN = gen_catalog_len")
-    const("gen_cdda_max_tracks", "N", lambda: find(r"tracks: contiguous::Contiguous<(\d+), cuesheet::TrackCDDA>", mod, "CD-DA track capacity").group(1),
+    const("gen_cdda_max_tracks", "N", lambda: str(ev(find(r"tracks: contiguous::Contiguous<([^,]+), cuesheet::TrackCDDA>", mod, "CD-DA track capacity").group(1))),
           "cdda_track_capacity_matches_source", "CDDA_MAX_TRACKS = gen_cdda_max_tracks")
-    const("gen_noncdda_max_tracks", "N", lambda: find(r"tracks: contiguous::Contiguous<(\d+), cuesheet::TrackNonCDDA>", mod, "non-CD-DA track capacity").group(1),
+    const("gen_noncdda_max_tracks", "N", lambda: str(ev(find(r"tracks: contiguous::Contiguous<([^,]+), cuesheet::TrackNonCDDA>", mod, "non-CD-DA track capacity").group(1))),
           "noncdda_track_capacity_matches_source", "NONCDDA_MAX_TRACKS = gen_noncdda_max_tracks")
-    const("gen_cdda_max_index", "N", lambda: find(r"pub type TrackCDDA = Track<CDDAOffset, NonZero<u8>, IndexVec<(\d+), CDDAOffset>>;", cue, "CD-DA index capacity").group(1),
+    const("gen_cdda_max_index", "N", lambda: str(ev(find(r"pub type TrackCDDA = Track<CDDAOffset, NonZero<u8>, IndexVec<([^,]+), CDDAOffset>>;", cue, "CD-DA index capacity").group(1))),
           "cdda_index_capacity_matches_source", "CDDA_MAX_INDEX = gen_cdda_max_index /\\ CDDA_MAX_INDEX_TEXT = gen_cdda_max_index")
-    const("gen_noncdda_max_index", "N", lambda: find(r"pub type TrackNonCDDA = Track<u64, NonZero<u8>, IndexVec<(\d+), u64>>;", cue, "non-CD-DA index capacity").group(1),
+    const("gen_noncdda_max_index", "N", lambda: str(ev(find(r"pub type TrackNonCDDA = Track<u64, NonZero<u8>, IndexVec<([^,]+), u64>>;", cue, "non-CD-DA index capacity").group(1))),
           "noncdda_index_capacity_matches_source", "NONCDDA_MAX_INDEX = gen_noncdda_max_index /\\ NONCDDA_MAX_INDEX_TEXT = gen_noncdda_max_index")
     const("gen_samples_per_sector", "N", lambda: str(ev(find(r"const SAMPLES_PER_SECTOR: u64 = ([^;]+);", cue, "SAMPLES_PER_SECTOR").group(1))),
           "samples_per_sector_matches_source", "SAMPLES_PER_SECTOR = gen_samples_per_sector")
-    const("gen_leadout_cdda", "N", lambda: find(r"pub const CDDA: NonZero<u8> = NonZero::new\((\d+)\)", cue, "LeadOut::CDDA").group(1),
+    const("gen_leadout_cdda", "N", lambda: str(ev(find(r"pub const CDDA: NonZero<u8> = NonZero::new\(([^()]+)\)", cue, "LeadOut::CDDA").group(1))),
           "leadout_cdda_matches_source", "LEADOUT_CDDA = gen_leadout_cdda")
-    const("gen_leadout_noncdda", "N", lambda: find(r"pub const NON_CDDA: NonZero<u8> = NonZero::new\((\d+)\)", cue, "LeadOut::NON_CDDA").group(1),
+    const("gen_leadout_noncdda", "N", lambda: str(ev(find(r"pub const NON_CDDA: NonZero<u8> = NonZero::new\(([^()]+)\)", cue, "LeadOut::NON_CDDA").group(1))),
           "leadout_noncdda_matches_source", "LEADOUT_NONCDDA = gen_leadout_noncdda")
 
     # STREAMINFO field widths as written by to_writer: the model accepts exactly what fits
@@ -118,17 +129,17 @@ def main():
     const("gen_si_bits_channels", "N", lambda: width("channels"), "streaminfo_channels_width_matches_source",
           "is_ok (write_streaminfo (mkSI 0 0 0 0 0 (2 ^ gen_si_bits_channels) 1 0 None)) = true /\\ "
           "is_ok (write_streaminfo (mkSI 0 0 0 0 0 (2 ^ gen_si_bits_channels + 1) 1 0 None)) = false")
-    const("gen_si_count_max", "N", lambda: str(int(find(r"\.read_count::<0b([01]+)>\(\)", mod, "read_count::<0b..>").group(1), 2)),
+    const("gen_si_count_max", "N", lambda: str(ev(find(r"\.read_count::<([^>]+)>\(\)", mod, "read_count::<..>").group(1))),
           "streaminfo_depth_count_matches_source", "is_ok (write_streaminfo (mkSI 0 0 0 0 0 1 (gen_si_count_max + 1) 0 None)) = true")
 
     def ptype(which):
         pt = find(r"pub enum PictureType \{(.*?)\n\}", mod, "enum PictureType", re.S).group(1)
-        pcodes = [int(x) for x in re.findall(r"\w+ = (\d+),", pt)]
+        pcodes = [ev(x) for x in re.findall(r"\w+ = ([^,\n]+),", pt)]
         if pcodes != list(range(len(pcodes))) or not pcodes:
             fail("PictureType discriminants are not 0..n")
         if which == "max":
             return str(pcodes[-1])
-        return find(r"%s = (\d+)," % which, pt, "PictureType::" + which).group(1)
+        return str(ev(find(r"%s = ([^,\n]+)," % which, pt, "PictureType::" + which).group(1)))
     const("gen_picture_type_max", "N", lambda: ptype("max"), "picture_type_max_matches_source", "gen_picture_type_max = 20")
     const("gen_picture_png_icon", "N", lambda: ptype("Png32x32"), "picture_png_icon_matches_source", "gen_picture_png_icon = 1")
     const("gen_picture_general_icon", "N", lambda: ptype("GeneralFileIcon"), "picture_general_icon_matches_source", "gen_picture_general_icon = 2")
